@@ -132,6 +132,11 @@ def check(run):
     if not mm:
         run.broke('forward_request no longer appends to m_server_out_buffer')
     single_origin_attempt_rule(run, fr)
+    # every request that passes validation is queued for the origin, whatever the state of the connection
+    okq = bool(mm) and q.on_all_paths(fr, [c for c in mm] + [n_ for n_ in fr.all_nodes() if n_['k'] == 'throw'])      # a rejected request leaves by throw
+    run.check(okq, 'R4', 'request-always-queued', H + '::forward_request', fr.loc(),
+              'a path through forward_request() returns without appending the rewritten request to m_server_out_buffer (e.g. the early return taken while the origin\'s name is being resolved was moved above the append): a request pipelined during the lookup is neither forwarded nor answered',
+              'every non-throwing path appends the request to the pipeline first')
     run.clause('a lookup started for one client never acts on the next one: close_connection() cancels the resolver on every path, and on_domain_lookup() does nothing when it is delivered operation_aborted')
     cc_ = f('close_connection')
     run.touch(cc_)
